@@ -1,4 +1,4 @@
-import MgpuModel.C13
+import MgpuModel.C13Core
 /-! Read-after-render lemmas for the two metadata layouts of property C13. -/
 namespace C13
 
